@@ -120,7 +120,7 @@ CLAIMED = {
         "shared storage. Partial: per-operation refinement lemmas for append/update/filtered/sliced/reindexed/collapsed/"
         "column_stack are not yet theorems.",
         "Trusted: Lean kernel; the iindex model is tied by correspondence only for the operations without theorems.",
-        "Lean 4 proof (refinement per operation + induction over histories, partial) + per-step history correspondence",
+        "Lean 4 proof (refinement per operation + induction over histories, partial) + per-step history correspondence + common_rowids regenerated from the source (translator) and proved to be the modelled query",
         "DESIGN.md §5 C06"),
     "C07": (
         "Lean 4: the well-formedness predicate WF as a proposition, its decidable twin wf (evaluated by the harness on every "
